@@ -14,6 +14,13 @@ tie T  : three tables are regenerated from the working tree on every run into fi
          locally_linear.hpp, tsne.hpp), coq/gen/Validate_C01.v (translate/t_val.py: the clauses of validate()),
          coq/gen/EigSelect_C01.v (translate/t_eig.py: eigen slices).  Shapes_Proof_Tie.v proves, for all sizes,
          that each generated expression denotes what the hand-written model uses: an edit re-opens an obligation.
+rows   : the clause "row i describes input sample i": a stream on three tight clusters with an irregular membership
+         pattern over the sample index; the harness dumps the returned matrix (dump=1) and the check applies a cluster
+         oracle (same-cluster rows closer than other-cluster rows; methods and reasons in ROW_CLUSTER_WHY / _EXCLUDED), an
+         isometry oracle (classical-scaling family with target_dimension >= D reproduces every pairwise distance) and a
+         projection oracle (row i = returned projecting function of sample i); swept over landmark_ratio 1 / 0.5 / 3/N,
+         k = N-1, target_dimension 1 / D / N-1, the three neighbour searches, both solvers, and three forms of the
+         index range (0..N-1; N-1..0; odd columns of a wider matrix with decoy columns).
 streams: besides the boundary / SPE / finiteness / random streams: HUGE finite magnitudes (1e150 .. 1e307, every method,
          all neighbour methods), SPECIAL keyword values (max_iteration 0 = automatic / 1 / 2, shifts at exactly 0,
          library defaults left unset vs set explicitly), data kinds offset (1e6 .. 1e12 x spread), bridge (two clusters
@@ -49,6 +56,10 @@ TRUSTED = [
     "Python with the same double expressions as the C++ (their exact semantics is property C14)",
     "extraction (ExtrOcamlBasic only) + OCaml + coq/extract/c01_driver.ml (parsing/printing)",
     "finiteness of returned entries is a TEST on the generic stream (numerical, not proved)",
+    "the clause `row i describes input sample i` is PROVED only for the landmark triangulation (tri_rows, tied to the return "
+    "statements and the scatter loop of landmarks.hpp read by t_shapes.py); for every method it is TESTED on the dumped "
+    "matrix: cluster oracle (11 methods; klle kltsa hlle npe lltsa lpp ra tsne ms and SPE's local strategy excluded with a "
+    "reason each), isometry oracle (classical-scaling family, target_dimension >= D), projection oracle (5 methods)",
     "OpenMP facts (throw statements inside parallel regions, orphaned work-sharing constructs) are LEXICAL: a throw "
     "reached through a call made from inside a region, or a region entered through a callback, is seen only by the "
     "huge-magnitude / in-region streams; ASan's malloc_fill_byte=255 is trusted to poison fresh heap memory",
@@ -610,8 +621,6 @@ ROW_CLUSTER_WHY = {
     "passthru": "the rows are the samples",
     "pca": "orthogonal projection on the top principal directions; the first one is the line through the centres up to "
            "O(0.05), so centres stay >= 0.9 apart while a projection never expands the 1e-3 clusters",
-    "ra": "linear map with a Gaussian matrix orthonormalised: within-cluster differences (1e-3) shrink or stay, the centre "
-          "differences keep a component unless the centre line is within 1e-3 rad of the kernel (probability < 1e-5)",
     "mds": "classical scaling reproduces the distances of the best rank-d approximation of the centred Gram matrix, whose "
            "leading direction is the centre line",
     "kpca": "linear kernel: the same Gram matrix as MDS",
@@ -635,6 +644,9 @@ ROW_CLUSTER_EXCLUDED = {
     "hlle": "as KLTSA, with second-order terms estimated from noise",
     "npe": "linear version of LLE: same degenerate weights",
     "lltsa": "linear version of LTSA: same degenerate tangent spaces",
+    "ra": "the random direction(s) are orthogonal to the centre line up to the cluster width with a probability of the "
+          "order of that width (met on /repo HEAD: target_dimension 1, D = 3, seed 5); RandomProjection is covered "
+          "by the projection oracle instead (row i == projection(sample i), exact)",
     "lpp": "the generalized eigenvectors with the SMALLEST eigenvalues are directions in which neighbours differ least "
            "relative to the variance: with 3 features these are noise directions across the centre line, where the "
            "clusters overlap (observed on /repo HEAD); LPP is covered by the projection oracle instead",
@@ -1378,7 +1390,7 @@ def search_phase(ctx, exes, mexe, rng, stats, budget):
         pc = par_cases(rng, 600000 + 1000 * i, T)
         evaluate(ctx, {"san": exes["san"]}, mexe, pc, stats, env_extra=env_extra)
         n += len(pc)
-    extra = huge_cases(rng, 610000, False) + special_cases(rng, 620000, False)
+    extra = huge_cases(rng, 610000, False) + special_cases(rng, 620000, False) + row_cases(rng, 640000, False)
     evaluate(ctx, exes, mexe, extra, stats)
     extra2 = deep_cases(rng, 630000, False)
     evaluate(ctx, exes, mexe, extra2, stats, wd=90, workers=4)
@@ -1457,6 +1469,9 @@ def run(ctx):
     nspecial = len(cases)
     cases += special_cases(rng, 80000, quick)
     nspecial = len(cases) - nspecial
+    nrows = len(cases)
+    cases += row_cases(rng, 85000, quick)
+    nrows = len(cases) - nrows
     nboundary = len(cases) - ncorpus
     cases += random_cases(rng, 100000, 600 if quick else 6000, 50)
     nrandom = len(cases) - ncorpus - nboundary
@@ -1495,8 +1510,8 @@ def run(ctx):
         stats.pop("exe_" + b, None)
     stats_fin, stats_nonfin = stats.get("finite_checked", {}), stats.get("nonfinite_by_method", {})
     distinct = {key_of(c) for c in cases if model[c["id"]]["cls"] in ("shape", "crash")}
-    hist = {"generators": {"corpus": ncorpus, "boundary": nboundary - nhuge - nspecial, "huge_magnitude": nhuge,
-                           "special_values": nspecial, "random": nrandom, "large": nlarge,
+    hist = {"generators": {"corpus": ncorpus, "boundary": nboundary - nhuge - nspecial - nrows, "huge_magnitude": nhuge,
+                           "special_values": nspecial, "row_order": nrows, "random": nrandom, "large": nlarge,
                            "in_parallel_region_twins": npar, "small_stack_large_N": len(deep)},
             "translators": tstatus,
             "method": {}, "N": {}, "kind": {}, "neighbors_method": {}, "eigen_method": {}, "stats": stats}
@@ -1509,7 +1524,9 @@ def run(ctx):
         rule="requests through tapkee::embed (public API): corpus witnesses, a boundary stream (per method, "
              "target_dimension on both sides of D, num_neighbors, #landmarks, N-2, N-1, N) and a random stream "
              "(20 methods x 3 neighbour methods x 2 solvers x N in {1..50} x 12 data kinds, keywords mostly valid, "
-             "sometimes on/beyond their bound), a huge-magnitude stream (1e154 .. 1e300), a special-keyword-value stream "
+             "sometimes on/beyond their bound), a huge-magnitude stream (1e154 .. 1e300), a special-keyword-value stream, "
+             "a row-order stream (three tight clusters with an irregular membership pattern, the returned matrix dumped: "
+             "cluster / isometry / projection oracles for the clause `row i describes sample i`, three index-range forms) "
              "and in-parallel-region twins (sanitizer build only); each other request runs in the ASan+UBSan+_GLIBCXX_ASSERTIONS build and "
              "in the Eigen-assertions build (evaluations = 2 per request); non-trivial = the model lets the request "
              "proceed to embed(); distinct by (method, back-ends, N, D, d, k, kind, keywords)",
@@ -1523,7 +1540,16 @@ def run(ctx):
                "obligation_files": ["coq/gen/ShapesSrc.v (regenerated)", "coq/gen/Validate_C01.v (regenerated)",
                                     "coq/gen/EigSelect_C01.v (regenerated)", "coq/Properties_C01.v"],
                "finiteness_clause": {"status": "TEST (not proved)", "checked_by_method": stats_fin,
-                                     "nonfinite_by_method": stats_nonfin}})
+                                     "nonfinite_by_method": stats_nonfin},
+               "row_order_clause": {
+                   "status": "TEST through three oracles on the dumped matrix (both builds) + the theorem "
+                             "c01_tri_rows_src_in_sample_order for the landmark triangulation",
+                   "checked": stats.get("rows", {}),
+                   "cluster_oracle_required_for": ROW_CLUSTER_WHY,
+                   "cluster_oracle_not_expected_for": ROW_CLUSTER_EXCLUDED,
+                   "isometry_oracle": "mds kpca pca lmds isomap(k=N-1) lisomap(k=N-1, ratio 1) with target_dimension >= D, "
+                                      "dense solver: every pairwise distance of the rows equals that of the samples (1e-6 rel.)",
+                   "projection_oracle": "pca ra npe lpp lltsa: row i == returned projecting function applied to sample i (1e-7 rel.)"}})
 
 
 def replay(ctx, case):
